@@ -76,6 +76,7 @@ type State struct {
 	closures map[string]*UnitInfo // Fun term -> closure unit created on this path
 	pending  []pendingGhost
 	depth    int // inlining depth
+	trace    []string
 }
 
 type pendingGhost struct {
@@ -96,6 +97,7 @@ func (s *State) clone() *State {
 		closures: make(map[string]*UnitInfo, len(s.closures)),
 		pending:  append([]pendingGhost(nil), s.pending...),
 		depth:    s.depth,
+		trace:    append([]string(nil), s.trace...),
 	}
 	for k, v := range s.vars {
 		n.vars[k] = v
